@@ -245,6 +245,14 @@ SendReady(t) ==
      \/ Len(sendQ[call[t].p]) < sqCap
      \/ sqCap = 0 /\ txHold[call[t].p] = NULL /\ call[t].p \in pipes
      \/ call[t].due >= 0 /\ now >= call[t].due
+\* The receive queue length (RESPONDENT) is changed while nothing is queued or held by a receiver (the drivers
+\* change it only then).  A Recv that is waiting keeps the deadline it started with.
+SetRQ(n) ==
+  /\ n >= 0 /\ recvQ = <<>> /\ \A p \in Pipe : rxHold[p] = NULL
+  /\ rqCap' = n
+  /\ UNCHANGED <<opt, ttl, sqCap, now, sclosed, pipes, pclosed, rxHold, recvQ, sendQ, txHold,
+                 cclosed, recvWait, backtrace, recvPipe, call, timers, arrived, taken, sent>>
+
 CanInternal ==
   \/ \E t \in Thread : RecvReady(t) \/ SendReady(t)
   \/ \E p \in Pipe : \/ sendQ[p] # <<>> /\ txHold[p] = NULL /\ ~pclosed[p]
